@@ -1,6 +1,7 @@
 package catalog
 
 import (
+	schema "github.com/jsightapi/jsight-schema-core"
 	"github.com/jsightapi/jsight-schema-core/notations/jschema/ischema"
 )
 
@@ -16,8 +17,16 @@ func NewPathVariablesBuilder(catalogUserTypes *UserTypes) PathVariablesBuilder {
 	}
 }
 
-func (b PathVariablesBuilder) AddProperty(key string, node ischema.Node, types map[string]ischema.Type) {
-	b.objectBuilder.AddProperty(key, node, types)
+// AddProperty adds the property of the path variables. The ast is optional: the
+// AST node of the property when it is known better than it can be built from the
+// node (the property is taken from a user type).
+func (b PathVariablesBuilder) AddProperty(
+	key string,
+	node ischema.Node,
+	types map[string]ischema.Type,
+	ast *schema.ASTNode,
+) {
+	b.objectBuilder.AddProperty(key, node, types, ast)
 }
 
 func (b PathVariablesBuilder) Len() int {
